@@ -605,8 +605,8 @@ PRIME31 = "(p_ == 2 || p_ == 3 || p_ == 5 || p_ == 7 || p_ == 11 || p_ == 13 || 
 def inverse_units(U, thorough):
     # Euclid inverses (bounded: modulus <= 31)
     for k, sig, P_, extra in (("zp_el", r"static int _get_inverse\(Element element\)", "characteristic", ""),
-                              ("mfs_el", r"static constexpr int _get_inverse\(Element element, const Element mod\)", "mod", ", in_p"),
-                              ("mfs_sh", r"static constexpr int _get_inverse\(Element element, const Characteristic mod\)", "mod", ", in_p"),
+                              ("mfs_el", r"static constexpr (?:long )?int _get_inverse\(Element element, const Element mod\)", "mod", ", in_p"),
+                              ("mfs_sh", r"static constexpr (?:long )?int _get_inverse\(Element element, const Characteristic mod\)", "mod", ", in_p"),
                               ("mfs_ops", MFSO + r"::_get_inverse\(Element element,\s*Characteristic mod\)", "mod", ", in_p")):
         pr = PROF[k]
         ret = "long int" if k == "mfs_ops" else "int"
